@@ -95,3 +95,12 @@ Theorem C11_undefined_left_as_written : forall sr s pre name post,
   Ok (text, [$"undefined macro: " ++ (123 :: name ++ [125]) ++ $": " ++ pre ++ (123 :: name ++ [125]) ++ post]).
 Proof. exact undefined_invocation. Qed.
 Print Assumptions C11_undefined_left_as_written.
+
+(* the hypotheses are met by ordinary text *)
+Example C11_ex_hypotheses : quiet $"Hello " /\ quiet $", and goodbye." /\ quiet $"the world" /\ name_ok $"who".
+Proof.
+  assert (Q : forall t, forallb no_macro_start t = true -> existsb (N.eqb 2) t = false -> quiet t).
+  { intros t H1 H2. split; [|exact H2]. intros x Hx. rewrite forallb_forall in H1. auto. }
+  repeat split; try (apply Q; vm_compute; reflexivity); try discriminate.
+  intros x Hx. vm_compute in Hx. intuition; subst; reflexivity.
+Qed.
